@@ -336,3 +336,12 @@ Section C05.
     | c :: r => do a <- chunk_to_buffer c ; do b <- file_to_buffer r ; Ok (a ++ b)
     end.
 End C05.
+
+(* ---------- constants of the source that the model mirrors as literals; tied to the source by
+   Props/C05.gen_iwa_constants (tools/gen_c05.py reads them from the protobuf descriptors and the AST):
+   (field number, protobuf type) of ArchiveInfo.identifier / message_infos / should_merge and
+   MessageInfo.type / length / base_message_index; the integer literals of to_buffer (3 length bytes,
+   65536 bytes per chunk) and of _decompress_all / is_iwa_file (marker 0, header[1:], 4 header bytes) ---------- *)
+Definition modelled_fields : list (N * N) := [(1, 4); (2, 11); (3, 8); (1, 13); (3, 13); (7, 13)].
+Definition modelled_ints_to_buffer : list N := [3; 65536].
+Definition modelled_ints_unframe : list N := [0; 1; 4].
